@@ -56,7 +56,7 @@ REQUIRED_FEATURES = {
             "doc-example": 8, "junk-version": 20, "unrelated-branch": 100, "suffix-without-patch-branch": 20, "minor0-branch": 100, "master-absent": 100,
             "git:local-only": 8, "git:fresh-clone": 8, "git:clone-fetch": 8, "git:clone-offline": 8,
             "git-target:prior-minor": 4, "git-target:prior-minor-0": 4, "git-target:exact": 4, "git-target:major": 4, "git-target:master": 4,
-            "git-target:tag": 4, "git-target:error": 4, "git-target:local-fallback": 2, "git:switched-branch": 8, "git:already-on-branch": 1, "git:namespaced-decoy-branch": 16,
+            "git-target:tag": 4, "git-target:error": 4, "git-target:local-fallback": 2, "git:switched-branch": 8, "git:already-on-branch": 1, "git:namespaced-decoy-branch": 16, "git:dirty-clone-needs-switch": 4,
         },
     ),
 }
@@ -567,7 +567,7 @@ def gen_git_case(rng, scenario, target):
                 tags.append(t)
         case = {
             "kind": "git", "scenario": scenario, "remote": remote, "later_remote": later_remote, "dropped_remote": dropped_remote,
-            "local_only": local_only, "tags": tags, "start": start, "version": version, "decoys": decoys,
+            "local_only": local_only, "tags": tags, "start": start, "version": version, "decoys": decoys, "dirty": rng.random() < 0.15,
         }
         exp_local, exp_remote = model_refs(case)
         allowed, why = git_reference(exp_remote, exp_local, model_tags(case), version, has_remote)
@@ -651,6 +651,12 @@ def git_case(ctx, case, root):
         raise RuntimeError(f"harness: tags in the clone {sorted(tags_known)} differ from the model {sorted(model_tags(case))} for {case}")
     before_branch, _, _ = read_head(repo_dir)
     allowed, why = git_reference(remote, local, list(tags_known), version, has_remote)
+    if case.get("dirty"):
+        # an uncommitted local edit to a file that differs between all refs: git refuses to switch away from the current branch, so whenever
+        # the right answer is another branch or a tag the only acceptable outcome is a reported error - never carrying on where the clone is
+        with open(os.path.join(str(repo_dir), "marker"), "w") as f:
+            f.write("local edit\n")
+        allowed = {a if (a[0] == "branch" and a[1] == before_branch) or a[0] == "error" else ("error",) for a in allowed}
     error = None
     try:
         r.update(distribution_version=version)
@@ -685,7 +691,7 @@ def git_case(ctx, case, root):
         ctx.clause("git-error-is-reported")
         if not isinstance(error, exceptions.RallyError):
             problems.append(("git-error-is-reported", f"update({version!r}) died with {observed['exception']} instead of reporting a Rally error (local {sorted(local)}, remote {sorted(remote)})"))
-    else:
+    elif not case.get("dirty"):
         ctx.clause("git-worktree-matches-head")
         want_marker = f"heads:{branch}" if branch is not None else (f"tags:{outcome[1]}" if outcome[0] == "tag" else None)
         if want_marker is not None and marker != want_marker:
@@ -693,6 +699,8 @@ def git_case(ctx, case, root):
     feats = {f"git:{case['scenario']}", f"git-target:{case.get('target', 'any')}"}
     if case.get("decoys"):
         feats.add("git:namespaced-decoy-branch")
+    if case.get("dirty"):
+        feats.add("git:dirty-clone-needs-switch" if ("error",) in allowed and kinds != {"error"} or allowed == {("error",)} and why != "error" else "git:dirty-clone-stays")
     if outcome[0] == "branch":
         feats.add("git:switched-branch" if outcome[1] != before_branch else "git:already-on-branch")
     return problems, observed, feats
